@@ -213,8 +213,37 @@ int main(int argc, char** argv) {
             set_note(rep); std::vector<HV> out; check_hints(c.qr, c.sig, c.rr, c.oth, P, out, R); if (((c.qr * 2654435761u) ^ (c.sig * 40503u) ^ c.rr ^ (c.oth << 3)) % 8 == 0 || (c.qr == 0x3ffff && c.sig == 0x1ffff)) { check_hints_second_set(c.qr, c.sig, c.rr, c.oth, P, out, R); R.count("second_set_cases"); } R.count("traces"); if (c.qr || c.sig) R.count("nontrivial");
             for (auto& v : out) R.violation("hints|" + v.key, v.what + " [" + rep + "]", rep);
         };
-        if (!a.replay.empty()) { std::string s = slurp(a.replay); Case c; unsigned q, g, r, o; if (sscanf(s.c_str(), "qr=%u;sig=%u;rr=%u;oth=%u", &q, &g, &r, &o) != 4) return done(2); c = {q, g, (uint8_t)r, (uint8_t)o};
+        if (!a.replay.empty() && slurp(a.replay).rfind("relabel", 0) != 0) { std::string s = slurp(a.replay); Case c; unsigned q, g, r, o; if (sscanf(s.c_str(), "qr=%u;sig=%u;rr=%u;oth=%u", &q, &g, &r, &o) != 4) return done(2); c = {q, g, (uint8_t)r, (uint8_t)o};
             Pool rp(1, 60); rp.run(1, [&](uint64_t, Result& R) { run_case(c, R); }, [&](uint64_t, const std::string& d, Result& R) { R.violation("hints|" + crash_key(d), d.substr(0, 1500), s); }, total); return done(total.viol.empty() ? 0 : 1); }
+        // relabel: a block that already holds items (every non-empty subset of {query/response, malformed message, address event}) built under other-data hints A is asked to take
+        // parameters B (index 1) through set_block_parameters, then written into a file whose preamble lists A and B. Whatever the call answers, the block in the file must conform
+        // to the hints the preamble states for the index the block names: no address events / malformed messages under a cleared bit, no query/response member whose bit is cleared.
+        auto run_relabel = [&](Result& R) {
+            const Pools PL = make_pools(1000000);
+            for (int K = 1; K < 8; K++) for (int oa = 0; oa < 4; oa++) for (int ob = 0; ob < 4; ob++) for (int qb = 0; qb < 3; qb++) for (int order = 0; order < 2; order++) {
+                std::string rep = "relabel;K=" + std::to_string(K) + ";oa=" + std::to_string(oa) + ";ob=" + std::to_string(ob) + ";qb=" + std::to_string(qb) + ";order=" + std::to_string(order); set_note(rep); R.count("traces"); R.count("nontrivial"); R.count("relabel_cases");
+                BlockParameters A, B; A.storage_parameters.storage_hints.other_data_hints = (uint8_t)oa; B.storage_parameters.storage_hints.other_data_hints = (uint8_t)ob;
+                if (qb == 1) B.storage_parameters.storage_hints.query_response_hints = 0; if (qb == 2) B.storage_parameters.storage_hints.query_response_hints &= ~0x1fu;
+                std::vector<BlockParameters> bps = {A, B}; FilePreamble fp(bps); CdnsBlock b(bps[0], 0);
+                auto add = [&](int what) { if (what == 0 && (K & 1)) b.add_question_response_record(PL.qr[0]); if (what == 1 && (K & 2)) b.add_malformed_message(PL.mm[0]); if (what == 2 && (K & 4)) b.add_address_event_count(PL.aec[0]); };
+                if (order == 0) { add(0); add(1); add(2); } else { add(2); add(1); add(0); }
+                b.set_block_parameters(bps[1], 1);
+                std::vector<std::string> outs; { CdnsExporter ex(fp, MemSink{&outs}, CborOutputCompression::NO_COMPRESSION); ex.write_block(b); }
+                std::vector<HV> out; if (outs.empty() || outs[0].empty()) continue;   // nothing was stored (the items were refused under A): nothing to conform
+                R.count("relabel_files");
+                try { ref::RFile rf = ref::read_file(outs.at(0));
+                    for (auto& rb : rf.blocks) { uint64_t idx = rb.has_bpi ? rb.bpi : 0; if (idx >= rf.params.size()) { out.push_back({"relabel|parameters-index-out-of-range", "block names parameters " + std::to_string(idx)}); continue; } const ref::RParams& hp = rf.params[idx];
+                        if (!rb.aecs.empty() && !(hp.other_hints & 2)) out.push_back({"relabel|address-events-under-cleared-hint", "a block under parameters " + std::to_string(idx) + " (other-data hints " + std::to_string(hp.other_hints) + ") stores " + std::to_string(rb.aecs.size()) + " address event(s)"});
+                        if (!rb.mms.empty() && !(hp.other_hints & 1)) out.push_back({"relabel|malformed-messages-under-cleared-hint", "a block under parameters " + std::to_string(idx) + " (other-data hints " + std::to_string(hp.other_hints) + ") stores " + std::to_string(rb.mms.size()) + " malformed message(s)"});
+                        for (uint32_t km : rb.qr_keys) for (int k = 0; k < 5; k++) if ((km >> k & 1) && !(hp.qr_hints >> k & 1)) { out.push_back({"relabel|query-response-member-under-cleared-hint", "a query/response under parameters " + std::to_string(idx) + " (hints " + std::to_string(hp.qr_hints) + ") stores member " + std::to_string(k)}); break; }
+                        if (!rb.unreachable.empty()) out.push_back({"relabel|unreachable-table-entry", rb.unreachable[0]}); } }
+                catch (std::exception& e) { out.push_back({"relabel|invalid-output", e.what()}); }
+                for (auto& v : out) R.violation("hints|" + v.key, v.what + " [" + rep + "]", rep);
+                if (!out.empty()) { R.outcome("relabel:viol"); return; } }
+            R.outcome("relabel:ok");
+        };
+        if (!a.replay.empty() && slurp(a.replay).rfind("relabel", 0) == 0) { std::string s = slurp(a.replay); Pool rp(1, 60); rp.run(1, [&](uint64_t, Result& R) { run_relabel(R); }, [&](uint64_t, const std::string& d, Result& R) { R.violation("hints|" + crash_key(d), d.substr(0, 1500), s); }, total); return done(total.viol.empty() ? 0 : 1); }
+        { Pool rl(1, 120); rl.run(1, [&](uint64_t, Result& R) { run_relabel(R); }, [&](uint64_t, const std::string& d, Result& R) { R.violation("hints|" + crash_key(d), d.substr(0, 1500), "relabel"); }, total); }
         // task index space: [0,2^18) QR masks | [0,2^17) sig masks | 16 rr x other | cross terms
         std::vector<Case> cross;
         auto devs = [&](uint32_t all, int bits, int maxdev) { std::vector<uint32_t> v; v.push_back(all); v.push_back(0);
